@@ -87,16 +87,22 @@ theorem swapdb_exchanges (i1 i2 : Int) (cis : List CI) (s : Sys) (hne : i1.toNat
 theorem swapdb_same_index (i : Int) (cis : List CI) (s : Sys) :
     swapdbCmd [.int i, .int i] cis s = (.ok (some .ok, cis), s) := swapdbCmd_same i cis s
 
-/-- SWAPDB with an invalid index (not an integer in 0..15): the error reply of the converter; the state is unchanged -/
+/-- SWAPDB with an invalid index (not an integer in 0..15): the state is unchanged; the reply is the error of the
+converter — unless the connection is in subscriber mode: `_run_command` refuses it before looking at the arguments -/
 theorem swapdb_invalid_index (special : SpecialFn) (mode : Mode) (c : Nat) (x y : Bytes) (fromScript : Bool)
     (s : Sys) (e : Err)
     (h : Conv.dbIndex x = .error e ∨ (∃ i, Conv.dbIndex x = .ok i ∧ Conv.dbIndex y = .error e)) :
     SigTable.find "swapdb" = some swapdbSig ∧
-    runWith special mode c swapdbSig [x, y] fromScript s = (some (.err (strBytes e)), s) :=
+    runWith special mode c swapdbSig [x, y] fromScript s =
+      (some (if s.refuses c swapdbSig then refusalReply else .err (strBytes e)), s) :=
   ⟨find_swapdb, swapdb_invalid_unchanged special mode c x y fromScript s e h⟩
 
 example : (match Conv.dbIndex (strBytes "16") with | .error e => e == Msgs.INVALID_DB_MSG | .ok _ => false) = true := by
   decide +kernel
+
+-- both replies occur: an ordinary connection is not refused, a subscribed one is
+example : ({ srv := { conns := [{ id := 7 }] } } : Sys).refuses 7 swapdbSig = false ∧
+    ({ srv := { conns := [{ id := 7, pubsub := 1 }] } } : Sys).refuses 7 swapdbSig = true := by decide
 
 /-- **MOVE k j**, `k` live in the selected database `d` and not live in `j ≠ d`: answers 1; database `j` gains exactly
 the item found in `d` (value and deadline); `d` itself is only purged by the body — the key's `CommandItem` is handed
